@@ -192,6 +192,22 @@ def gen_prog(rng, cls):
         faults = ["sto 2 %d%s" % (rng.randrange(0, 3), rng.choice(["", " p"]))]
         prog = [cfg0.replace(" n=", " trig=1 n=").replace("n=%d" % n, "n=1000"), "configure", "start"] + ["trigger 0", "sleep 2"] * rng.randrange(1, 6) + \
                ["sleep %d" % rng.randrange(0, 10), "abort", cfg0, "configure", "start", "stop"]   # (stop would wait for triggers nobody fires)
+    elif cls == "avgabortmon":
+        # averaging on and a client that holds a region: the *filter* is the writer that sleeps on sink.in when abort arrives
+        k = rng.choice([2, 3]); fb32 = R.frame_bytes(w, h, 4)
+        ring = rng.choice([max(fb, fb32) * 2 + 16, max(fb, fb32) * 3 + 8])
+        prog = ["cfg 0 cam=0 sto=2 w=%d h=%d type=%d n=1000 avg=%d" % (w, h, t, k), "configure", "start", "sleep %d" % rng.randrange(2, 12), "map 0",
+                "sleep %d" % rng.randrange(8, 25), "abort", "unmap 0 all",
+                "cfg 0 cam=0 sto=2 w=%d h=%d type=%d n=%d avg=%d" % (w, h, t, rng.choice([2, 4, 6]), k), "configure", "start", "map 0", "unmap 0 all", "monwait 0", "stop"]
+    elif cls == "drop2":
+        # two streams, then the second one is switched off by the next acquire_configure: it must stay off
+        w1, h1, t1 = rng.choice([1, 4]), rng.choice([2, 3]), rng.choice([0, 1])
+        ring = max(ring, R.frame_bytes(w1, h1, R.BPP[t1]) * 2 + 16)
+        c0 = "cfg 0 cam=0 sto=2 w=%d h=%d type=%d n=%d" % (w, h, t, rng.choice([3, 5, 1000]))
+        c1 = "cfg 1 cam=1 sto=3 w=%d h=%d type=%d n=%d" % (w1, h1, t1, rng.choice([4, 1000]))
+        prog = [c0, c1, "configure", "start", "sleep %d" % rng.randrange(0, 12), rng.choice(["abort", "abort", "stop"]) if "n=1000" not in c0 + c1 else "abort",
+                "cfg 0 cam=0 sto=2 w=%d h=%d type=%d n=%d" % (w, h, t, rng.choice([2, 5])), "cfg 1 cam=- sto=-", "configure", "start", "stop"] + \
+               rng.choice([[], ["shutdown"]])
     elif cls == "delay":
         prog = [cfg0 + " delay=%d" % rng.choice([1, 3]), "configure", "start", "stop"]
     elif cls == "switchfail":
@@ -416,7 +432,12 @@ class Explorer:
         if relevant is not None and not relevant(p):
             self.ctx.notes.append("oracle of another property fired in a %s scenario: %s" % (sc["cls"], p["msg"][:160]))
             return
-        if "STEP-LIMIT" in p["sig"] and r.get("spec"):
+        if p["sig"] in self.reported:
+            # seen before in this check: count it, spend nothing more on it
+            self.ctx.violation(p["kind"], p["sig"], p["msg"], replay)
+            return
+        if "STEP-LIMIT" in p["sig"] and r.get("spec") and self.stats.get("step_limit_reruns", 0) < 6:
+            self.stats["step_limit_reruns"] = self.stats.get("step_limit_reruns", 0) + 1
             # the step limit is a budget, not a verdict: a run that is slow in scheduler steps (write delays, long sleeps under an
             # unlucky schedule) but still moving is given eight times the budget before it is called a hang
             sc8 = dict(sc, limit=8 * sc.get("limit", 40000))
@@ -436,7 +457,9 @@ class Explorer:
         self.ctx.violation(p["kind"], p["sig"], "real runtime violates the property: %s  [class %s, program `%s`, ring %d, run %s]" % (
             p["msg"], sc["cls"], " ; ".join(replay["scenario"].get("window") or replay["scenario"].get("prog")), replay["scenario"]["ring"], replay["run"]), replay)
 
-    def shrink(self, sc, p, budget=40):
+    def shrink(self, sc, p, budget=None):
+        if budget is None:   # runs that do not end are expensive: shrink them less
+            budget = 12 if ("never-returns" in p["sig"] or "CRASH" in p["sig"]) else 40
         """drop client operations while some schedule still shows the same signature"""
         key = "window" if "window" in sc else "prog"
         ops = list(sc[key])
@@ -491,10 +514,17 @@ class Explorer:
 def explore(ctx, ex, classes, nscen, nsched, relevant=None, extra_runs=("explicit  fair",)):
     """`nscen` scenarios per class, each under `nsched` random schedules (+ the fair round-robin one)"""
     for cls in classes:
+        unfinished = 0
         for i in range(nscen):
+            if unfinished >= 6:
+                # runs that never end cost a full step budget each (and, co-simulated, megabytes of trace): once a class has shown
+                # half a dozen of them, they have been reported and the rest of the class adds nothing but time
+                ex.stats.setdefault("classes_cut_short_after_repeated_hangs", []).append(cls)
+                break
             sc = gen(ctx.rng, cls)
             runs = ["random %d" % ctx.rng.randrange(1 << 30) for _ in range(nsched)] + list(extra_runs)
             res, problems = ex.run_scenario(sc, runs)
+            unfinished += sum(1 for r in res if not (r["end"] or "").startswith("ok"))
             if len(ex.samples) < 6 and i == 0:
                 ex.samples.append({"class": cls, "ring": sc["ring"], "program": " ; ".join(harness_scenario(sc)["prog"])[:300], "faults": sc.get("faults", [])})
             for p in problems:
